@@ -631,7 +631,7 @@ def rule_shape_coverage(ctx, rep, cfgs):
             if m is None:
                 continue
             c['byte_mode' if 'u8' in d.source else 'str_mode'] += 1
-            if '_TABLE_1' in m.consts:
+            if sum(1 for cn, t in m.consts.items() if isinstance(t, list) and len(t) == 256 and all(isinstance(x, int) for x in t)) >= 2:
                 c['two_luts'] += 1
             ga = m.fns.get('_get_action')
             if ga:
@@ -651,18 +651,8 @@ def rule_shape_coverage(ctx, rep, cfgs):
                     if not s.edges and not s.loopset:
                         c['eoi_only'] += 1
                 c['prefix_guard' if has_prefix_guard(s) else 'no_prefix_guard'] += 1
-                body = m.states[name]['body']
-                txt = repr(body)
-                if "'TABLE'" in txt:
-                    c['jump_table'] += 1
-                elif s.edges:
-                    c['if_chain'] += 1
-                if re.search(r"_TABLE_\d+", txt.split("'loop_test'")[-1] if "'loop_test'" in txt else txt) and s.edges and "'TABLE'" not in txt:
-                    pass
-                if s.edges and "'TABLE'" not in txt and re.search(r"'path': '_TABLE_\d+'", txt.replace("loop_test", "", 1)):
-                    c['lut_test'] += 1
-                if s.edges and re.search(r"'op': '!=', 'l': \{'k': 'path', 'path': 'byte'", txt):
-                    c['cmp_exception'] += 1
+                for f in m.features.get(name, ()):
+                    c[f] = c.get(f, 0) + 1
         rep.analysed.setdefault('shapes', {})[cfg] = c
         for shape in ('self_loop', 'no_self_loop', 'early', 'late', 'eoi_edge', 'eoi_only', 'prefix_guard', 'no_prefix_guard', 'jump_table', 'if_chain', 'lut_test', 'cmp_exception', 'two_luts', 'skip_leaf', 'callback_leaf', 'byte_mode', 'str_mode'):
             rep.inst(rid, '%s:%s' % (cfg, shape), detail=c[shape])
